@@ -25,7 +25,10 @@ RULE_ADDED = (
               'Also: shapes where the device reports total / partial success before the last '
               'announced block, and uiHeartbeat shapes that end in the bootloader or stay in the '
               'heartbeat app (baseline -905); 16 success answers per signing / heartbeat shape with '
-              'signatures of 8..72 bytes; a fifth of the cells with the --iodebug option on ')
+              'signatures of 8..72 bytes; a fifth of the cells with the --iodebug option on '
+              ' '
+              'Round 8: logging configured as shipped (everything down to DEBUG formatted) in e'
+              'very cell. ')
 RULE = RULE + " " + RULE_ADDED.strip()
 ASSUMPTIONS = [
     "simulated device + fake HID transport trusted; injected status words carry no data "
